@@ -452,7 +452,8 @@ theorem unlock_deferred_on_acquiring_path :
     sections (a blocking operation inside a section would make every name block every name);
     the key of every table access is the block's name token (two blocks exclude each other exactly
     when they carry the same name — the model's names ARE the table keys); the named mutex is
-    acquired by exactly one blocking `Lock()` (no TryLock / bounded wait; absence = refuted). -/
+    acquired by one blocking `Lock()` (counted over the whole function, whatever its shape; any
+    TryLock = refuted: polling or a bounded wait; no Lock at all = unknown). -/
 theorem protocol_order_facts :
     verdict "true" "false" Ecal.Gen.C12.orderFacts ≠ some false := by decide
 
